@@ -264,7 +264,11 @@ def replay_rotland(case) -> dict:
     d = np.array(case["disp"], dtype=float)
     sub = (_blob(shape, c + d, rng) + 0.05 * rng.normal(size=shape)).astype(np.float32)
     M = _models()[case["model"]]
-    model = M(tmpls if T > 1 else tmpls[0], mask, rotations=rots)
+    if case.get("norot"):
+        rots = [Rotation.identity()]
+        model = M(tmpls, mask)           # several templates, no rotation search: a different construction path
+    else:
+        model = M(tmpls if T > 1 else tmpls[0], mask, rotations=rots)
     desc = dict(part="rotland", model=case["model"], shape=list(shape), T=T, K=len(rots))
     fails = []
     l0 = np.asarray(engine.api(model.landscape, sub, (0.0, 0.0, 0.0)), dtype=np.float64)
@@ -273,6 +277,12 @@ def replay_rotland(case) -> dict:
     if len(flat0) != T * len(rots):
         fails.append(dict(desc, clause="LandscapeBlocks", observed=list(l0.shape)))
         return dict(failures=fails)
+    if case.get("norot") and case["model"] == "ZNCC":   # the property states score = landscape centre for ZNCC (and FSC) only
+        # block j of a multi-template landscape is what the single-template model of template j computes
+        for jj in range(T):
+            single = float(engine.api(M(tmpls[jj], mask).score, sub, IDQ, ZERO))
+            if abs(float(flat0[jj]) - single) > 3e-3:
+                fails.append(dict(desc, clause="MultiTemplateBlockIsSingleTemplateScore", template=jj, block=float(flat0[jj]), single=single))
     top = np.sort(flat0)
     if case["model"] in ("ZNCC", "NCC") and abs(float(top[-1]) - float(r0.score)) > 3e-3:
         fails.append(dict(desc, clause="ZeroRangeLandscapeMaxIsAlignScore", landscape_max=float(top[-1]), align0=float(r0.score)))
@@ -341,6 +351,8 @@ def run(rep: engine.Report, tier: str, seed: int):
     lowp = [dict(part="lowpass", model=("ZNCC", "NCC")[j % 2], cfg=c["cfg"], rden=c["rden"], rnum=c["rnum"], identity=c["identity"], seed=seed * 17 + j) for j, c in enumerate(fsel)]
     rotl = [dict(part="rotland", model=m, shape=list(sh), T=T, seed=seed * 13 + i, disp=[(1, -1, 0), (0, 1, 1), (-1, 0, 1)][i % 3])
             for i, (m, sh, T) in enumerate((m, sh, T) for m in ("ZNCC", "NCC", "PCC") for sh in ((9, 9, 9), (8, 9, 10), (10, 8, 8)) for T in (1, 2))]
+    rotl += [dict(part="rotland", model=m, shape=list(sh), T=2, norot=True, seed=seed * 17 + i, disp=[(1, -1, 0), (0, 1, 1)][i % 2])
+             for i, (m, sh) in enumerate((m, sh) for m in ("ZNCC", "NCC", "PCC") for sh in ((9, 9, 9), (8, 9, 10)))]
     allc = exact + rel + ldr + wedge + lowp + rotl
     results = engine.parallel_replay("harness.props.c07", "replay", allc)
     engine.collect(rep, allc, results, key=lambda c: (c.get("part"), c.get("model"), c["cfg"]) if c.get("part") in ("wedge", "lowpass") else (c.get("cfg") or c))
